@@ -25,6 +25,7 @@
 import YtkModel.Generated.Constants
 import YtkProofs.Patch
 import YtkProofs.GapPatch
+import YtkModel.GapDiffPatch
 import YtkProofs.HeapPatch
 import YtkProofs.HeapPatchAbs
 import YtkProofs.Decisions
@@ -784,6 +785,49 @@ theorem nonvacuous_missing_target :
     getTok exDoc ["b", "z"] = none ∧ getTok exDoc ["a", "2"] = none ∧ getTok exDoc ["c", "k"] = none ∧
     getTok exDoc (parent ["q", "r"]) = none ∧ getTok exDoc ["b", "x"] = some (l "1") ∧
     (["b", "z", "a", "2", "c", "k", "q", "r", "x"].all tokOk) = true := by
+  decide +kernel
+
+end Ytk.C09
+
+/-! ## gap7a: diff.Diff → xform.DiffMod2PatchOp → patch.Do, end to end (C07 / C08 × C09)
+
+  `diffPatch L R` (YtkModel/GapDiffPatch.lean) converts every modification of `Diff(L, R)` with the
+  model's `Xform.mod2op` and `PointerFromPropPathString`; `applyDiffPatch L R` runs the operations on R
+  with successive `patch.Do` calls.  The tempting end-to-end statement "applying to R the RFC 6902
+  patch obtained from Diff(L, R) yields a document whose flatten equals flatten L" (the analogue of
+  C08's `apply_diff_flatten`) is FALSE, already on C08's domain: `diff.Apply` CREATES missing parents
+  (and re-creates a list it has just deleted), RFC 6902 `add` REQUIRES the parent to exist. -/
+namespace Ytk.C09
+open Ytk.Patch
+
+/-- (a) an added subtree two levels deep: Diff reports one Add per LEAF (`a.b`), the converted
+    operation is `add /a/b`, whose parent `/a` does not exist in R — the patch fails and R stays as it
+    was, while `diff.Apply` reconstructs L.  (b) a replaced list: Diff reports `Delete l` followed by
+    `Add l[0]`; the converted patch removes `/l` and then fails to add `/l/0` below the member it has
+    just removed — R ends up WITHOUT the list (a half-applied patch), while `diff.Apply` reconstructs L.
+    Both pairs are in the domain of C08's reconstruction theorem. -/
+theorem diff2patch_not_applicable_counterexample :
+    (diff [("a", .cont [("b", l "1")])] [] = [Mod.mkAdd "a.b" ⟨"int", "1"⟩] ∧
+     flatten (Ytk.apply [] (diff [("a", .cont [("b", l "1")])] [])) = flatten [("a", .cont [("b", l "1")])] ∧
+     applyDiffPatch [("a", .cont [("b", l "1")])] [] = (.cont [], [.err])) ∧
+    (diff [("l", .list [l "1"])] [("l", .list [l "2"])] = [Mod.mkDel "l", Mod.mkAdd "l[0]" ⟨"int", "1"⟩] ∧
+     flatten (Ytk.apply [("l", .list [l "2"])] (diff [("l", .list [l "1"])] [("l", .list [l "2"])])) =
+       flatten [("l", .list [l "1"])] ∧
+     applyDiffPatch [("l", .list [l "1"])] [("l", .list [l "2"])] = (.cont [], [.ok (), .err])) := by
+  decide +kernel
+
+/-- where it does work: members added at an existing parent and deleted members — every converted
+    operation succeeds and the patched R IS L.  (A differing scalar is reported as a Change whose `Value`
+    is the RIGHT document's scalar — `diff_table_rule` of C07 —, so the converted `replace` writes R's own
+    value back: it succeeds and changes nothing; such pairs are outside C08's `Compat` domain.) -/
+theorem nonvacuous_diff2patch :
+    applyDiffPatch [("a", l "1"), ("b", .cont [("c", l "2")])] [("b", .cont [("c", l "2")]), ("z", l "0")] =
+      (.cont [("a", l "1"), ("b", .cont [("c", l "2")])], [.ok (), .ok ()]) ∧
+    (diffPatch [("a", l "1"), ("b", .cont [("c", l "2")])] [("b", .cont [("c", l "3")]), ("z", l "0")]).map
+      (fun o => (o.op, o.path, o.value)) =
+        [("add", some ["a"], some (l "1")), ("replace", some ["b", "c"], some (l "3")), ("remove", some ["z"], none)] ∧
+    applyDiffPatch [("a", l "1"), ("b", .cont [("c", l "2")])] [("b", .cont [("c", l "3")]), ("z", l "0")] =
+      (.cont [("a", l "1"), ("b", .cont [("c", l "3")])], [.ok (), .ok (), .ok ()]) := by
   decide +kernel
 
 end Ytk.C09
